@@ -620,6 +620,20 @@ impl<'a> Ctx<'a> {
                 .and_then(|c| c.doc_path.get(&self.sc.docs[d.doc].path))
                 .map(|p| self.obs.stderr.contains(&format!("failing in {:?}", p)))
                 .unwrap_or(false);
+            // a document in which a test case ended with its skip code is skipped - it does not
+            // make the run fail
+            if j.skipped_doc && !j.faulted && named && self.sc.tier == Tier::Cli && self.obs.sim_abort.is_none() && self.obs.exit_status == Some(1) {
+                out.push(v(
+                    "C15",
+                    "skip-makes-run-fail",
+                    j.tests.first().map(|t| t.nonce.as_str()),
+                    format!(
+                        "document {}: a test case ended with its skip code, yet scrut gave up on the document (exit status 1): {}",
+                        self.sc.docs[d.doc].path,
+                        self.obs.stderr.lines().find(|l| l.contains("Error")).unwrap_or("").chars().take(300).collect::<String>()
+                    ),
+                ));
+            }
             // ... or it ran every command to its end and then gave up on what came back
             let gave_up_after = !j.run_fail && !j.faulted && j.stop.is_none() && j.tests.iter().all(|t| t.pid.is_some());
             if (j.refused_without_cause || gave_up_after) && named && self.sc.tier == Tier::Cli && self.obs.sim_abort.is_none() && self.obs.exit_status == Some(1) {
